@@ -250,7 +250,13 @@ func (s *Session) Run(ctx context.Context, dir string, args ...string) error {
 						log.Printf("ignoring %s", line)
 						continue
 					} else {
-						for _, output := range iop.OutputSet {
+						for i := range iop.OutputSet {
+							// Use the element itself (not a
+							// copy) so that the record of a
+							// match survives this iteration:
+							// an output that has been matched
+							// must not be counted again.
+							output := &iop.OutputSet[i]
 							if output.Bindingss != nil {
 								continue
 							}
